@@ -190,13 +190,14 @@ func (l *localFS) Put(ctx context.Context, key string, source io.Reader, exclusi
 					zap.Error(err),
 				)
 			}
-			err = target.Close()
-			if err != nil {
+			if e := target.Close(); e != nil {
 				l.l.Error("write error, retrying",
 					zap.String("key", key),
-					zap.Error(err),
+					zap.Error(e),
 				)
-
+				if err == nil {
+					err = e
+				}
 			}
 
 			return err
@@ -220,12 +221,14 @@ func (l *localFS) Put(ctx context.Context, key string, source io.Reader, exclusi
 				)
 			}
 
-			err = target.Close()
-			if err != nil {
+			if e := target.Close(); e != nil {
 				l.l.Error("write error, retrying",
 					zap.String("key", key),
-					zap.Error(err),
+					zap.Error(e),
 				)
+				if err == nil {
+					err = e
+				}
 			}
 
 			return err
